@@ -256,8 +256,8 @@ func (p *Prog) reachable(roots []*ssa.Function, stop func(*ssa.Function) bool) m
 		if stop != nil && stop(f) {
 			continue
 		}
-		if !isModFn(f) {
-			continue
+		if !isModFn(f) && !(f.Synthetic != "" && f.Blocks != nil) {
+			continue // synthetic wrappers (bound methods, thunks) are followed through
 		}
 		n := cg.Nodes[f]
 		if n != nil {
@@ -387,11 +387,19 @@ func accessPath(v ssa.Value, getters map[string]string, depth int) string {
 			return accessPath(x.X, getters, depth+1)
 		}
 	case *ssa.FieldAddr:
+		f, _ := fieldAddr(x)
+		// field of a freshly constructed object that the constructor fills from its argument: alias of the argument
+		if call, ok := x.X.(*ssa.Call); ok && getters != nil {
+			if g := calleeFn(call.Common()); g != nil {
+				if fld, ok := getters["ctor:"+g.String()]; ok && fld == f.Name() && len(call.Call.Args) == 1 {
+					return accessPath(call.Call.Args[0], getters, depth+1)
+				}
+			}
+		}
 		b := accessPath(x.X, getters, depth+1)
 		if b == "" {
 			return ""
 		}
-		f, _ := fieldAddr(x)
 		return b + "." + f.Name()
 	case *ssa.Field:
 		b := accessPath(x.X, getters, depth+1)
@@ -412,6 +420,14 @@ func accessPath(v ssa.Value, getters map[string]string, depth int) string {
 	case *ssa.Call:
 		if f := calleeFn(x.Common()); f != nil && getters != nil {
 			if fld, ok := getters[f.String()]; ok && len(x.Call.Args) == 1 {
+				// getter applied to a freshly constructed object
+				if inner, ok := x.Call.Args[0].(*ssa.Call); ok {
+					if g := calleeFn(inner.Common()); g != nil {
+						if cf, ok := getters["ctor:"+g.String()]; ok && cf == fld && len(inner.Call.Args) == 1 {
+							return accessPath(inner.Call.Args[0], getters, depth+1)
+						}
+					}
+				}
 				b := accessPath(x.Call.Args[0], getters, depth+1)
 				if b == "" {
 					return ""
@@ -431,8 +447,18 @@ func accessPath(v ssa.Value, getters map[string]string, depth int) string {
 				n++
 			}
 		}
-		if n == 1 && x.Comment != "" {
-			return "var:" + x.Comment
+		if n == 1 {
+			// a parameter spilled into a cell because closures capture it is still that parameter
+			for _, r := range *x.Referrers() {
+				if st, ok := r.(*ssa.Store); ok && st.Addr == ssa.Value(x) {
+					if prm, isP := st.Val.(*ssa.Parameter); isP {
+						return prm.Name()
+					}
+				}
+			}
+			if x.Comment != "" {
+				return "var:" + x.Comment
+			}
 		}
 	case *ssa.MakeClosure:
 	}
